@@ -3,14 +3,16 @@ from lib import *  # noqa
 import gen, latmodel
 from koala.lattice import Lattice, LatticeException
 
-DRIVERS = ("lat",)
-MODEL_TARGETS = ["Model/Lattice.vo"]
-TARGETS = ["Proofs/LatticeFacts.vo"]
+DRIVERS = ("lat", "c01s")
+MODEL_TARGETS = ["Model/Lattice.vo", "Model/SpecC01.vo"]
+TARGETS = ["Proofs/LatticeFacts.vo", "Proofs/SpecC01Facts.vo", "Proofs/WindingConvexTri.vo", "Proofs/WindingConvex.vo", "Proofs/WindingConvexDec.vo", "Proofs/WindingConvexG1.vo"]
 LEVEL = "proof"
 TRUST = [
     "hand-written Gallina model coq/Model/Lattice.v of lattice.py (_sorted_vertex_adjacent_edges, _find_plaquette, _find_all_plaquettes): modelled, not verified; tied to the code by the correspondence run below",
     "float arctan2 ordering and float winding sum of the implementation are compared with the exact predicates; inputs whose smallest angular margin is < 1e-9 are counted and skipped (genericity clause)",
     "geometry facts G1 (turning number = sign of area on crossing-free walks; compared per input) and G2 (orbits of next_dart are the faces) are not proved in Coq",
+    "S: the extracted Gallina checker spec_c01n (coq/Model/SpecC01.v; sound AND complete for legit_enumeration by C01_spec_checker_correct) decides every combinatorial clause on the implementation's plaquette list; "
+    "the Python restatement spec_on_impl is kept beside it (the two verdicts are compared on every case) and alone covers the float clause 'center is the area centroid'",
 ]
 ASSUMPTIONS = ["straight-line drawing without crossing edges, generic vertex positions (property quantifier)"]
 
@@ -82,6 +84,69 @@ def spec_on_impl(pos, edges, crossing, r, faces, S):
     return bad
 
 
+SPEC_KEYS = ["model-faces", "walk-length", "closed-walk", "not-a-face", "edge-twice", "net-crossing", "orientation",
+             "not-legit", "duplicate", "missing-face"]
+
+
+def ser_plaquettes(pl):
+    """the implementation's plaquettes as driver tokens: nP { n_sides, vertices, edges, directions(1/0) }"""
+    toks = [str(len(pl))]
+    for p in pl:
+        toks.append(str(int(p["n_sides"])))
+        toks += [str(len(p["vertices"]))] + [str(int(x)) for x in p["vertices"]]
+        toks += [str(len(p["edges"]))] + [str(int(x)) for x in p["edges"]]
+        toks += [str(len(p["directions"]))] + ["1" if int(x) == 1 else "0" for x in p["directions"]]
+    return " ".join(toks)
+
+
+def spec_extracted(ctx, pending, label):
+    """Run the PROVED checker (extracted spec_c01n) on the implementation's plaquette lists collected in
+    `pending` = [(case, lattice line, plaquettes, python_keys)], report its rejections as violations
+    spec_c01:<subcheck>, and compare its verdict with the Python restatement's."""
+    res = ctx.res
+    if not pending:
+        return
+    lines = ["spec " + line + " " + ser_plaquettes(pl) for (_, line, pl, _) in pending]
+    outs = run_driver_parallel(ctx.exe["c01s"], lines)
+    ex = res.extra
+    for k in ("spec_c01_cases", "spec_c01_accepts", "spec_c01_rejects", "spec_c01_agree_with_python_S", "spec_c01_disagree_with_python_S",
+              "spec_c01_G1_false", "spec_c01_plaquettes_checked"):
+        ex.setdefault(k, 0)
+    for (c, line, pl, pykeys), o in zip(pending, outs):
+        if "error" in o:
+            raise RuntimeError(f"c01s driver error {' '.join(o['error'])} on {c}")
+        if o["good"][0] != "1":
+            raise RuntimeError(f"c01s: lattice is not `good` (hypothesis of C01_spec_checker_correct) on {c}")
+        ok = o["verdict"][0] == "1"
+        ex["spec_c01_cases"] += 1
+        ex["spec_c01_plaquettes_checked"] += len(pl)
+        ex["spec_c01_accepts" if ok else "spec_c01_rejects"] += 1
+        if o["g1"][0] != "1":
+            ex["spec_c01_G1_false"] += 1
+        if not ok:
+            if o["first"][0] != "N":
+                sub = SPEC_KEYS[int(o["first"][0])]
+            else:
+                sub = "n-sides"
+            item = o["item"][0] if sub != "n-sides" else o["nsides"][0]
+            what = (f"extracted checker spec_c01n rejects the implementation's plaquette list: first failing sub-check '{sub}' "
+                    f"(sub-check verdicts {''.join(o['checks'])}; G1 on this lattice: {o['g1'][0]}); ")
+            if sub == "missing-face":
+                what += f"legitimate model face #{item} (of all_faces) is not reported"
+            elif item != "N":
+                i = int(item)
+                what += f"offending plaquette #{i}: " + json.dumps({k: pl[i][k] for k in ("vertices", "edges", "directions", "n_sides")})
+            res.violation("spec_c01:" + sub, what, c)
+        # the two statements of the property must agree (the float clause 'center' is outside the extracted checker)
+        py_ok = not [k for k in pykeys if k != "center"]
+        if py_ok == ok:
+            ex["spec_c01_agree_with_python_S"] += 1
+        else:
+            ex["spec_c01_disagree_with_python_S"] += 1
+            ctx.k_mismatch(f"{label}: Python restatement S {'accepts' if py_ok else 'rejects ' + str(sorted(set(pykeys)))} but the extracted "
+                           f"spec_c01n {'accepts' if ok else 'rejects (' + SPEC_KEYS[int(o['first'][0])] + ')' if o['first'][0] != 'N' else 'rejects (n-sides)'}", c)
+
+
 def parse_faces(d):
     if d["faces"][0] == "ERR":
         return None
@@ -96,16 +161,17 @@ def parse_faces(d):
 def evaluate(ctx, cases, label):
     res = ctx.res
     built, lines = [], []
+    pending = []   # cases for the extracted spec checker
     for c in cases:
         arr, why = gen.try_build(c)
         if arr is None:
             res.skip("generator-could-not-build-base")
             continue
         line, S = ser_lattice_arrays(*arr)
-        built.append((c, arr, S))
+        built.append((c, arr, S, line))
         lines.append("latfaces " + line)
     outs = run_driver_parallel(ctx.exe["lat"], lines)
-    for (c, (pos, edges, crossing), S), o in zip(built, outs):
+    for (c, (pos, edges, crossing), S, line), o in zip(built, outs):
         m = latmodel.parse_model(o, S)
         if "error" in m:
             raise RuntimeError(f"driver error {m['error']} on {c}")
@@ -162,11 +228,15 @@ def evaluate(ctx, cases, label):
                 if f["nodup"] and f["netzero"] and ((f["winding"] == -1) != (f["area2"] > 0)):
                     res.extra["G1_disagreements"] = res.extra.get("G1_disagreements", 0) + 1
         # S
-        for key, what in spec_on_impl(pos, edges, crossing, r, faces, S):
+        pybad = spec_on_impl(pos, edges, crossing, r, faces, S)
+        for key, what in pybad:
             res.violation(key, what, c)
+        if faces is not None:
+            pending.append((c, line, r["plaquettes"], [k for k, _ in pybad]))
         res.sample({"case": c, "V": len(pos), "E": len(edges), "plaquettes": len(r["plaquettes"]),
                     "first_plaquette": {k: r["plaquettes"][0][k] for k in ("vertices", "edges", "directions")} if r["plaquettes"] else None})
     res.extra["size_histogram"] = getattr(res, "hist_size", {})
+    spec_extracted(ctx, pending, label)
     # extraction cross-check: a sample of the driver's answers re-derived inside Coq (vm_compute)
     if label.startswith("K("):
         small = [(b, o) for b, o in zip(built, outs) if len(b[1][0]) <= 60 and "error" not in o]
